@@ -2,6 +2,7 @@ package main
 
 import (
 	"fmt"
+	"runtime"
 	"go/constant"
 	"go/token"
 	"go/types"
@@ -50,9 +51,6 @@ func (m *Machine) get(fr *Frame, v ssa.Value) Value {
 	val, ok := fr.env[v]
 	if !ok {
 		panic(fmt.Sprintf("value %s (%T) not defined in %s", v.Name(), v, fr.fn))
-	}
-	if p, bad := val.(Poison); bad && !fr.tolerant {
-		panic(unsupported("use of value that could not be computed: " + p.why))
 	}
 	return val
 }
@@ -141,6 +139,18 @@ func (m *Machine) step(th *Thread) (yielded bool) {
 				panic(r)
 			case *pathEnd:
 				panic(r)
+			case runtime.Error:
+				if !fr.tolerant {
+					// an engine-level type error: almost always a value that could not be computed (poison) reaching an
+					// operation; reported as UNSUPPORTED (inconclusive), never silently passed
+					panic(unsupported("engine type error at " + m.curSite + ": " + e.Error()))
+				}
+				if v, ok := in.(ssa.Value); ok {
+					fr.env[v] = Poison{e.Error()}
+				}
+				fr.pc++
+				yielded = false
+				return
 			default:
 				if fr.tolerant {
 					if v, ok := in.(ssa.Value); ok {
